@@ -7,6 +7,8 @@ ExtendFromSecondariesAction / ExtendFromPrimariesAction, shared with C02).
 import CelerVerif.Lemmas.Stack
 import CelerVerif.Lemmas.StackInterleave6
 import CelerVerif.Lemmas.TrackInitStep
+import CelerVerif.Lemmas.TrackInitLivelock
+import CelerVerif.Lemmas.TrackInitFirstReq
 
 namespace CelerVerif.Stack
 
@@ -241,7 +243,73 @@ theorem reset_after_error {cfg : TrackInit.Cfg} {s s' : TrackInit.State} {e : Tr
     simp [TrackInit.Slot.active] at this; exact this
   · rw [hlive]; simp [TrackInit.reset, hL'.cfg_eq]
 
+/-- if every interaction of a step asks for more secondaries than the whole stack holds
+    (capacity < request, e.g. slots·stack_factor = 1 and an at-rest annihilation needing 2),
+    every allocation fails, every interaction becomes `failed` (track alive, no secondaries) and
+    the allocator is exactly as the pre-step left it -/
+theorem starved_requests_all_fail (xs : List TrackInit.Slot) (rs : List TrackInit.Request)
+    (stk : Stack) (hs : stk.size ≤ stk.cap) (hst : TrackInit.Starved stk.cap rs) :
+    (∀ o ∈ (TrackInit.effectiveOutcomes xs rs stk).1, o = ⟨.alive, []⟩) ∧
+    (TrackInit.effectiveOutcomes xs rs stk).2.2 = stk :=
+  TrackInit.effGo_starved 0 xs rs stk hs hst
+
+/-- ✗ FINDING (negation of "the event still completes"): LIVELOCK.  From any reachable state
+    with an empty queue, as long as every interaction asks for more secondaries than the
+    secondary stack can hold, Stepper calls of ANY number succeed (no error is raised) and
+    leave the number of living tracks and the empty queue unchanged: the failed-interaction
+    step maps the configuration to itself (only the step counters advance), so with at least
+    one living track `alive = 0` is never reached.  Replayed on the real code by
+    tools/checks/c16.py (key secondary-stack-smaller-than-one-interaction-livelock). -/
+theorem starved_stack_livelock {cfg : TrackInit.Cfg} {s : TrackInit.State}
+    (h : TrackInit.Reachable cfg s) (hq : s.c.numInitializers = 0) (stk : Stack)
+    (rss : List (List TrackInit.Request)) (hst : ∀ rs ∈ rss, TrackInit.Starved stk.cap rs) :
+    (∃ s', TrackInit.ReqRuns s stk rss s') ∧
+    (∀ s', TrackInit.ReqRuns s stk rss s' →
+      (TrackInit.liveL s'.slots).length = (TrackInit.liveL s.slots).length ∧
+      s'.c.numInitializers = 0) :=
+  TrackInit.starved_runs rss s stk
+    (TrackInit.inv_of_reachable (TrackInit.itSpec_all cfg) h) hq hst
+
+/-- one livelocked Stepper call in detail: it succeeds, reports `alive` = the previous number
+    of living tracks and `queued = 0`, and returns the allocator empty -/
+theorem starved_step_is_fixed_point {cfg : TrackInit.Cfg} {s : TrackInit.State}
+    (h : TrackInit.Reachable cfg s) (hq : s.c.numInitializers = 0) (stk : Stack)
+    (reqs : List TrackInit.Request) (hst : TrackInit.Starved stk.cap reqs) :
+    ∃ s', TrackInit.stepReq reqs s stk = (.ok s', clear stk) ∧ TrackInit.Inv cfg s' ∧
+      s'.c.numInitializers = 0 ∧
+      (TrackInit.liveL s'.slots).length = (TrackInit.liveL s.slots).length ∧
+      (TrackInit.result s').alive = (TrackInit.liveL s.slots).length ∧
+      (TrackInit.result s').queued = 0 :=
+  TrackInit.starved_step (TrackInit.inv_of_reachable (TrackInit.itSpec_all cfg) h) hq reqs hst
+
+/-- the side condition under which an interaction is always carried out: if the secondary stack
+    (cleared at every pre-step) can hold the request of ONE interaction — capacity ≥ the largest
+    number of secondaries a single interaction asks for — then in every step the first track
+    (in slot order) that asks for secondaries gets them and its interaction is applied as
+    sampled, whatever the later tracks ask for; a step in which all interactions fail is then
+    impossible.  (Completion of the whole event additionally needs the physics assumption of
+    C02 `liveness_*`: tracks die after finitely many carried-out interactions.) -/
+theorem first_request_succeeds (xs1 : List TrackInit.Slot) (rs1 : List TrackInit.Request)
+    (x : TrackInit.Slot) (r : TrackInit.Request) (xs2 : List TrackInit.Slot)
+    (rs2 : List TrackInit.Request) (stk : Stack) (hlen : xs1.length = rs1.length)
+    (hpre : ∀ p ∈ List.zip xs1 rs1, TrackInit.NonAlloc p.1 p.2)
+    (hx : ¬ (x.status = .inactive ∨ x.status = .errored))
+    (hk : r.kind = .scatter ∨ r.kind = .absorb) (hne : r.secs ≠ [])
+    (hfit : r.secs.length ≤ stk.cap) (hw : r.secs.length < W) :
+    xs1.length ∉ (TrackInit.effectiveOutcomes (xs1 ++ x :: xs2) (rs1 ++ r :: rs2) (clear stk)).2.1 ∧
+    (TrackInit.effectiveOutcomes (xs1 ++ x :: xs2) (rs1 ++ r :: rs2) (clear stk)).1[xs1.length]?
+      = some ⟨if r.kind = .absorb then .killed else .alive, r.secs⟩ := by
+  have := TrackInit.first_request_succeeds xs1 rs1 x r xs2 rs2 (clear stk) 0 hlen hpre hx hk hne
+    (by simp [clear]; exact hfit) (by simp [clear]; exact hw)
+  simpa [TrackInit.effectiveOutcomes] using this
+
 /-! non-vacuity -/
+-- the finding's configuration: capacity 1, every track's interaction needs 2 secondaries
+example : TrackInit.Starved 1 [⟨.absorb, [⟨true, 0⟩, ⟨true, 0⟩]⟩, ⟨.absorb, [⟨true, 0⟩, ⟨true, 0⟩]⟩] := by
+  intro r hr
+  simp at hr
+  subst hr
+  exact ⟨Or.inr rfl, by decide, by decide⟩
 -- capacity 10: thread 0 gets [0,8), thread 1 (5) crosses the capacity, thread 2 (1) fails while
 -- thread 1's restore is pending, thread 1 restores, thread 3 (2) then still fits: [8,10)
 example : run ⟨10, 0, [⟨8, .init⟩, ⟨5, .init⟩, ⟨1, .init⟩, ⟨2, .init⟩]⟩
